@@ -1,6 +1,7 @@
 """This module is to train a sleap-nn model using Lightning."""
 
 from pathlib import Path
+import copy
 import os
 import psutil
 import shutil
@@ -197,7 +198,7 @@ class ModelTrainer:
         if (
             rank is None or rank == 0
         ):  # save cfg if there are no distributed process or the rank = 0
-            OmegaConf.save(config=self.config, f=f"{self.dir_path}/initial_config.yaml")
+            self._save_config(f"{self.dir_path}/initial_config.yaml")
 
         # set seed
         torch.manual_seed(self.seed)
@@ -300,9 +301,7 @@ class ModelTrainer:
         if (
             rank is None or rank == 0
         ):  # save config if there are no distributed process or the rank = 0
-            OmegaConf.save(
-                config=self.config, f=f"{self.dir_path}/training_config.yaml"
-            )
+            self._save_config(f"{self.dir_path}/training_config.yaml")
 
         # save config to chunks folder
         if not self.use_existing_chunks and self.data_pipeline_fw in [
@@ -317,7 +316,18 @@ class ModelTrainer:
             if (
                 rank is None or rank == 0
             ):  # save config if there are no distributed process or the rank = 0
-                OmegaConf.save(config=self.config, f=save_path.as_posix())
+                self._save_config(save_path.as_posix())
+
+    def _save_config(self, path):
+        """Save the config to `path` with the wandb API key masked.
+
+        The API key must never be written to disk, so every config file is saved from
+        a copy in which the key is blanked.
+        """
+        config = copy.deepcopy(self.config)
+        if OmegaConf.select(config, "trainer_config.wandb.api_key") is not None:
+            config.trainer_config.wandb.api_key = ""
+        OmegaConf.save(config=config, f=path)
 
     def _create_data_loaders_torch_dataset(self):
         """Create a torch DataLoader for train, validation and test sets using the data_config."""
@@ -811,14 +821,17 @@ class ModelTrainer:
                 )
                 wandb_logger.experiment.config.update({"model_params": total_params})
 
+        # the API key is not needed anymore; checkpoints store the config, so it is
+        # blanked whether or not wandb logging is used.
+        if OmegaConf.select(self.config, "trainer_config.wandb.api_key") is not None:
+            self.config.trainer_config.wandb.api_key = ""
+
         # save the configs as yaml in the checkpoint dir
         rank = get_dist_rank()
         if (
             rank is None or rank == 0
         ):  # save config if there are no distributed process or the rank = 0
-            OmegaConf.save(
-                config=self.config, f=f"{self.dir_path}/training_config.yaml"
-            )
+            self._save_config(f"{self.dir_path}/training_config.yaml")
 
         if self.data_pipeline_fw == "litdata":
             self._create_data_loaders_litdata()
@@ -887,9 +900,7 @@ class ModelTrainer:
                 wandb.finish()
 
             # save the config with wandb runid
-            OmegaConf.save(
-                config=self.config, f=f"{self.dir_path}/training_config.yaml"
-            )
+            self._save_config(f"{self.dir_path}/training_config.yaml")
 
             if (
                 self.data_pipeline_fw == "torch_dataset_np_chunks"
